@@ -340,10 +340,10 @@ package workflow
 //@   site mapwrite#6 set known(l, stepID)
 //@   site call Start#1 assert [steps-see-the-normalised-input] l.data["input"] == callres(Serialize, 1, 0) && callrecv(Serialize, 1) == any(e.input) && \
 //@        callarg(Serialize, 1, 0) == callres(Unserialize, 1, 0) && callres(Serialize, 1, 1) == nil && callres(Unserialize, 1, 1) == nil
-//@   site call Unlock#2 assert [a-run-builds-its-own-state] fresh(l) && fresh(l.lock) && fresh(l.data) && fresh(stepsOf(l)) && fresh(l.runningSteps) && \
+//@   site call Unlock#1 assert [a-run-builds-its-own-state] fresh(l) && fresh(l.lock) && fresh(l.data) && fresh(stepsOf(l)) && fresh(l.runningSteps) && \
 //@        fresh(l.waitingOutputs) && fresh(l.outputDataChannel) && fresh(l.recentErrors) && l.dag != e.dag && \
 //@        (forall k string :: indom(stepsOf(l), k) ==> fresh(stepsOf(l)[k].(map[string]any)))
-//@   site call Unlock#2 assert [a-run-starts-with-nothing-produced] !l.outputDone && (forall k string :: indom(stepsOf(l), k) ==> \
+//@   site call Unlock#1 assert [a-run-starts-with-nothing-produced] !l.outputDone && (forall k string :: indom(stepsOf(l), k) ==> \
 //@        (forall g string :: !indom(stepsOf(l)[k].(map[string]any), g)))
 //@   site return#* assert [every-launched-step-is-force-closed] forall k string :: indom(l.runningSteps, k) ==> forceclosed(l.runningSteps[k])
 //@   loop 2 invariant held(l.lock) && wfloop(l)
